@@ -250,6 +250,11 @@ class ZoneStatusDecoder(
             )
             self._mismatch_logged = True
 
+        # This version of the protocol has no data in front of the repeated
+        # records. The header says how much there is, to be skipped if a later
+        # version adds some.
+        buffer = buffer[header.non_repeat_length :]
+
         zones: list[ZoneStatusData] = []
         for _ in range(header.repeat_count):
             (
